@@ -22,6 +22,7 @@ import XsdataModel.Proofs.C09Infoset
 import XsdataModel.Proofs.C09XInclude
 import XsdataModel.Proofs.C09WsDeep
 import XsdataModel.Proofs.C09AttrDeep
+import XsdataModel.Proofs.C09WsDeepSimple
 
 namespace Props.C09
 open Py Xs.Bind Proofs.C09
@@ -198,6 +199,31 @@ example : Data.primOf (parseRoot Data.benv Data.ctx {} "Plain".toList (indentDee
     = some (.bool true) := by decide
 -- significant text is not ignorable: `<x>hello</x>` vs `<x> hello</x>`
 example : wsRel Data.benv.py (Data.leaf "x" (some "hello")) (Data.leaf "x" (some " hello")) = false := by decide
+
+/-- **ws_invariant_deep_simple**: `ws_invariant_deep` for universes that also have simple-content
+classes (`simpleContent`: a text field and no element, choice, wildcard or wrapper to take a child
+element), under `fail_on_unknown_properties` (the default): such a class rejects its first child
+element whatever its text is, so indentation in front of it cannot be observed. -/
+theorem ws_invariant_deep_simple (e : BEnv) (Γ : Ctx) (cfg : ParserConfig) (hΓ : ctxAll textlessOrSimple Γ = true)
+    (hs : cfg.failOnUnknownProperties = true) (c : ClassId) (t t' : Tree) (h : wsRel e.py t t' = true) :
+    parseRoot e Γ cfg c t = parseRoot e Γ cfg c t' :=
+  parseRoot_wsRelS e Γ cfg hΓ hs c t t' h
+
+/-- `@dataclass class Amount: value: str (Text), a: Optional[int] (Attribute)` next to `Plain` -/
+def amountMeta : XmlMeta :=
+  { clazz := "Amount".toList, qname := "Amount".toList, targetQName := some "Amount".toList, nillable := false,
+    text := some (Data.mkVar 1 "value" .text [.prim .str]), choices := [], elements := [], wildcards := [],
+    attributes := [("a".toList, Data.vA)], anyAttributes := [], wrappers := [] }
+def amountCtx : Ctx :=
+  { Data.ctx with classes := [Data.plainClass,
+      { id := "Amount".toList, metas := [(none, amountMeta)], mro := ["Amount".toList], bases := [],
+        fields := [⟨"value".toList, true, some (.prim (.str []))⟩, ⟨"a".toList, true, some .none⟩] }] }
+example : ctxAll textlessOrSimple amountCtx = true := by decide
+example : ctxAll textless amountCtx = false := by decide
+example : ({} : ParserConfig).failOnUnknownProperties = true := rfl
+example : Data.primOf (parseRoot Data.benv amountCtx {} "Amount".toList
+    (.node "Amount".toList [("a".toList, "7".toList)] [] (some "12.50".toList) [] none)) "value" = some (.str "12.50".toList) := by
+  decide
 
 /-! ## 3. surrounding white space of non-string values
 
